@@ -3,7 +3,7 @@
 against (run on the clean /repo HEAD).  sa/views.py treats any other helper / constant as new and looks through it."""
 import ast, json, os, sys
 sys.path.insert(0, os.path.join(os.path.dirname(os.path.abspath(__file__)), '..'))
-from sa.views import module_names
+from sa.views import module_names, module_fingerprints
 out = {}
 root = sys.argv[1] if len(sys.argv) > 1 else '/repo'
 for d, _, fs in os.walk(os.path.join(root, 'athlib')):
@@ -12,9 +12,10 @@ for d, _, fs in os.walk(os.path.join(root, 'athlib')):
             p = os.path.join(d, f)
             rel = os.path.relpath(p, root)
             try:
-                fns, consts = module_names(ast.parse(open(p, encoding='utf-8').read()))
+                tree = ast.parse(open(p, encoding='utf-8').read())
+                fns, consts = module_names(tree)
             except SyntaxError:
                 continue
-            out[rel] = {'functions': fns, 'constants': consts}
+            out[rel] = {'functions': fns, 'constants': consts, 'fingerprints': module_fingerprints(tree)}
 json.dump(out, open(os.path.join(os.path.dirname(os.path.abspath(__file__)), '..', 'spec', 'baseline_names.json'), 'w'), indent=0, sort_keys=True)
 print(len(out), 'modules')
